@@ -63,6 +63,54 @@ def _task_inner(args):
                 "exhaustive": False, "wall_s": 0.0}
 
 
+def _child_main(task, conn):
+    try:
+        conn.send(_task(task))
+    finally:
+        conn.close()
+
+
+def _crashed(task, exitcode):
+    return {"sub": task[1], "shard": task[4], "evaluations": 0, "nontrivial_hashes": set(), "tags": {}, "skips": {},
+            "samples": [], "violations": [], "known_hits": {}, "exhaustive": False, "wall_s": 0.0,
+            "error": f"worker process died without a result (exit code {exitcode}; a negative value is a signal, e.g. -11 = "
+                     f"SIGSEGV in native code reached from the code under test) - inconclusive, not a verdict"}
+
+
+def _run_tasks(tasks, jobs):
+    """One forked process per task, at most `jobs` at a time.  Unlike multiprocessing.Pool this survives a worker
+    that is killed (segmentation fault in native code, out-of-memory): the task is reported as a harness error."""
+    from multiprocessing.connection import wait
+    ctx = mp.get_context("fork")
+    pending = list(tasks)[::-1]
+    running = {}
+    results = []
+    while pending or running:
+        while pending and len(running) < jobs:
+            t = pending.pop()
+            parent, child = ctx.Pipe(duplex=False)
+            p = ctx.Process(target=_child_main, args=(t, child))
+            p.start()
+            child.close()
+            running[parent] = (p, t)
+        ready = wait(list(running.keys()), timeout=2.0)
+        for conn in ready:
+            p, t = running.pop(conn)
+            try:
+                results.append(conn.recv())
+            except (EOFError, OSError):
+                p.join(5)
+                results.append(_crashed(t, p.exitcode))
+            conn.close()
+            p.join(5)
+        for conn, (p, t) in list(running.items()):
+            if not p.is_alive() and not conn.poll():
+                running.pop(conn)
+                results.append(_crashed(t, p.exitcode))
+                conn.close()
+    return results
+
+
 def replay(path):
     from . import core
     blob = json.load(open(path))
@@ -96,15 +144,10 @@ def run_property(prop_id, tier, only=None, jobs=None):
         for sh in range(ns):
             tasks.append((prop_id, n, tier, seed, sh, ns, known_sigs, None))
     jobs = jobs or int(os.environ.get("VERIF_JOBS", "16"))
-    # heavier tasks first
-    results = []
     if jobs == 1 or len(tasks) == 1:
         results = [_task(t) for t in tasks]
     else:
-        ctx = mp.get_context("fork")
-        with ctx.Pool(min(jobs, len(tasks)), maxtasksperchild=8) as pool:
-            for r in pool.imap_unordered(_task, tasks, chunksize=1):
-                results.append(r)
+        results = _run_tasks(tasks, min(jobs, len(tasks)))
 
     # ---- regression corpus: every committed replay of this property must pass ------------------
     status = 0
